@@ -129,107 +129,111 @@ let rec amp_loop d ts = match ts with
        else amp_loop (N.add d (Npos Coq_xH)) r
   else Some (d, ts)
 
-(** val parse_addition : nat -> tok list -> (expr * tok list) res **)
+(** val parse_addition_g : nat -> nat -> tok list -> (expr * tok list) res **)
 
-let rec parse_addition f ts =
+let rec parse_addition_g lim f ts =
   match f with
   | O -> Fuel
   | S f0 ->
-    bind (parse_multiplication f0 ts) (fun pat ->
-      let (e, ts1) = pat in add_loop f0 e ts1)
+    bind (parse_multiplication_g lim f0 ts) (fun pat ->
+      let (e, ts1) = pat in add_loop_g lim f0 e ts1)
 
-(** val add_loop : nat -> expr -> tok list -> (expr * tok list) res **)
+(** val add_loop_g :
+    nat -> nat -> expr -> tok list -> (expr * tok list) res **)
 
-and add_loop f acc ts =
+and add_loop_g lim f acc ts =
   match f with
   | O -> Fuel
   | S f0 ->
     (match bitop_of (hdk ts) with
-     | Some op -> bit_loop f0 op acc (tl ts)
+     | Some op -> bit_loop_g lim f0 op acc (tl ts)
      | None ->
        (match shiftop_of (hdk ts) with
         | Some op ->
-          bind (parse_unary f0 (tl ts)) (fun pat ->
+          bind (parse_unary_g lim f0 (tl ts)) (fun pat ->
             let (r, ts1) = pat in Ok ((EBinary (op, acc, r)), ts1))
         | None ->
           (match addop_of (hdk ts) with
            | Some op ->
-             bind (parse_multiplication f0 (tl ts)) (fun pat ->
-               let (r, ts1) = pat in add_loop f0 (EBinary (op, acc, r)) ts1)
+             bind (parse_multiplication_g lim f0 (tl ts)) (fun pat ->
+               let (r, ts1) = pat in
+               add_loop_g lim f0 (EBinary (op, acc, r)) ts1)
            | None -> Ok (acc, ts))))
 
-(** val bit_loop :
-    nat -> binop -> expr -> tok list -> (expr * tok list) res **)
+(** val bit_loop_g :
+    nat -> nat -> binop -> expr -> tok list -> (expr * tok list) res **)
 
-and bit_loop f op acc ts =
+and bit_loop_g lim f op acc ts =
   match f with
   | O -> Fuel
   | S f0 ->
-    bind (parse_unary f0 ts) (fun pat ->
+    bind (parse_unary_g lim f0 ts) (fun pat ->
       let (r, ts1) = pat in
       if same_bitop op (hdk ts1)
-      then bit_loop f0 op (EBinary (op, acc, r)) (tl ts1)
+      then bit_loop_g lim f0 op (EBinary (op, acc, r)) (tl ts1)
       else Ok ((EBinary (op, acc, r)), ts1))
 
-(** val parse_multiplication : nat -> tok list -> (expr * tok list) res **)
+(** val parse_multiplication_g :
+    nat -> nat -> tok list -> (expr * tok list) res **)
 
-and parse_multiplication f ts =
+and parse_multiplication_g lim f ts =
   match f with
   | O -> Fuel
   | S f0 ->
-    bind (parse_singular f0 ts) (fun pat ->
-      let (e, ts1) = pat in mul_loop f0 e ts1)
+    bind (parse_singular_g lim f0 ts) (fun pat ->
+      let (e, ts1) = pat in mul_loop_g lim f0 e ts1)
 
-(** val mul_loop : nat -> expr -> tok list -> (expr * tok list) res **)
+(** val mul_loop_g :
+    nat -> nat -> expr -> tok list -> (expr * tok list) res **)
 
-and mul_loop f acc ts =
+and mul_loop_g lim f acc ts =
   match f with
   | O -> Fuel
   | S f0 ->
     (match mulop_of (hdk ts) with
      | Some op ->
-       bind (parse_singular f0 (tl ts)) (fun pat ->
-         let (r, ts1) = pat in mul_loop f0 (EBinary (op, acc, r)) ts1)
+       bind (parse_singular_g lim f0 (tl ts)) (fun pat ->
+         let (r, ts1) = pat in mul_loop_g lim f0 (EBinary (op, acc, r)) ts1)
      | None -> Ok (acc, ts))
 
-(** val parse_singular : nat -> tok list -> (expr * tok list) res **)
+(** val parse_singular_g : nat -> nat -> tok list -> (expr * tok list) res **)
 
-and parse_singular f ts =
+and parse_singular_g lim f ts =
   match f with
   | O -> Fuel
   | S f0 ->
     if isCast (hdk ts)
-    then bind (parse_unary f0 (tl ts)) (fun pat ->
+    then bind (parse_unary_g lim f0 (tl ts)) (fun pat ->
            let (e, ts1) = pat in as_loop f0 (EBitCast e) ts1)
-    else bind (parse_unary f0 ts) (fun pat ->
+    else bind (parse_unary_g lim f0 ts) (fun pat ->
            let (e, ts1) = pat in as_loop f0 e ts1)
 
-(** val parse_unary : nat -> tok list -> (expr * tok list) res **)
+(** val parse_unary_g : nat -> nat -> tok list -> (expr * tok list) res **)
 
-and parse_unary f ts =
+and parse_unary_g lim f ts =
   match f with
   | O -> Fuel
   | S f0 ->
     (match hdk ts with
      | KPipe ->
-       bind (parse_reference f0 (tl ts)) (fun pat ->
+       bind (parse_reference_g lim f0 (tl ts)) (fun pat ->
          let (r, ts1) = pat in
          bind (expect_r isPipe ts1) (fun ts2 -> Ok ((ELength r), ts2)))
      | KExclamation ->
-       bind (parse_primary f0 (tl ts)) (fun pat ->
+       bind (parse_primary_g lim f0 (tl ts)) (fun pat ->
          let (e, ts1) = pat in Ok ((EUnary (BitwiseComplement, e)), ts1))
      | KMinus ->
-       bind (parse_primary f0 (tl ts)) (fun pat ->
+       bind (parse_primary_g lim f0 (tl ts)) (fun pat ->
          let (e, ts1) = pat in Ok ((EUnary (Negative, e)), ts1))
      | KPipeForType ->
        bind (parse_type f0 (tl ts)) (fun pat ->
          let (t, ts1) = pat in
          bind (expect_r isPipe ts1) (fun ts2 -> Ok ((ESizeOf t), ts2)))
-     | _ -> parse_primary f0 ts)
+     | _ -> parse_primary_g lim f0 ts)
 
-(** val parse_primary : nat -> tok list -> (expr * tok list) res **)
+(** val parse_primary_g : nat -> nat -> tok list -> (expr * tok list) res **)
 
-and parse_primary f ts =
+and parse_primary_g lim f ts =
   match f with
   | O -> Fuel
   | S f0 ->
@@ -238,35 +242,35 @@ and parse_primary f ts =
      | t :: ts1 ->
        (match t.kind with
         | KParenLeft ->
-          bind (parse_addition f0 ts1) (fun pat ->
+          bind (parse_addition_g lim f0 ts1) (fun pat ->
             let (e, ts2) = pat in
             bind (expect_r isParenRight ts2) (fun ts3 -> Ok ((EParen e), ts3)))
         | KBracketLeft ->
-          bind (expr_list f0 true ts1) (fun pat ->
+          bind (expr_list_g lim f0 true ts1) (fun pat ->
             let (es, ts2) = pat in Ok ((EArray es), ts2))
         | KAmpersand ->
-          bind (parse_addressed f0 ts1) (fun pat ->
+          bind (parse_addressed_g lim f0 ts1) (fun pat ->
             let (r, ts2) = pat in
             if isDots (hdk ts2)
-            then bind (parse_addition f0 (tl ts2)) (fun pat0 ->
+            then bind (parse_addition_g lim f0 (tl ts2)) (fun pat0 ->
                    let (off, ts3) = pat0 in
                    Ok ((EBinary (AdvancePointer, (EDeref r), off)), ts3))
             else Ok ((EDeref r), ts2))
         | KIdentifier ->
           if isParenLeft (hdk ts1)
-          then bind (expr_list f0 false (tl ts1)) (fun pat ->
+          then bind (expr_list_g lim f0 false (tl ts1)) (fun pat ->
                  let (args, ts2) = pat in
                  Ok ((ECall (false, (tok_name t), args)), ts2))
           else if isBraceLeft (hdk ts1)
-               then bind (members_loop f0 (tl ts1)) (fun pat ->
+               then bind (members_loop_g lim f0 (tl ts1)) (fun pat ->
                       let (ms, ts2) = pat in
                       Ok ((EStructural ((tok_name t), ms)), ts2))
-               else bind (steps_loop f0 O ts1) (fun pat ->
+               else bind (steps_loop_g lim f0 O ts1) (fun pat ->
                       let (steps, ts2) = pat in
                       Ok ((EDeref (Ref (N0, (tok_name t), steps))), ts2))
         | KBuiltin ->
           bind (expect_r isParenLeft ts1) (fun ts2 ->
-            bind (expr_list f0 false ts2) (fun pat ->
+            bind (expr_list_g lim f0 false ts2) (fun pat ->
               let (args, ts3) = pat in
               Ok ((ECall (true, (tok_name t), args)), ts3)))
         | KNakedDecimal ->
@@ -294,26 +298,27 @@ and parse_primary f ts =
           Ok ((EString (app t.bytes bs)), ts2)
         | _ -> Err UnexpectedToken))
 
-(** val expr_list : nat -> bool -> tok list -> (expr list * tok list) res **)
+(** val expr_list_g :
+    nat -> nat -> bool -> tok list -> (expr list * tok list) res **)
 
-and expr_list f br ts =
+and expr_list_g lim f br ts =
   match f with
   | O -> Fuel
   | S f0 ->
     if is_close br (hdk ts)
     then Ok ([], (tl ts))
-    else bind (parse_addition f0 ts) (fun pat ->
+    else bind (parse_addition_g lim f0 ts) (fun pat ->
            let (e, ts1) = pat in
            if isComma (hdk ts1)
-           then bind (expr_list f0 br (tl ts1)) (fun pat0 ->
+           then bind (expr_list_g lim f0 br (tl ts1)) (fun pat0 ->
                   let (es, ts2) = pat0 in Ok ((e :: es), ts2))
            else bind (expect_r (is_close br) ts1) (fun ts2 -> Ok ((e :: []),
                   ts2)))
 
-(** val members_loop :
-    nat -> tok list -> ((name * expr) list * tok list) res **)
+(** val members_loop_g :
+    nat -> nat -> tok list -> ((name * expr) list * tok list) res **)
 
-and members_loop f ts =
+and members_loop_g lim f ts =
   match f with
   | O -> Fuel
   | S f0 ->
@@ -323,18 +328,19 @@ and members_loop f ts =
            let (n, ts1) = pat in
            bind
              (if isColon (hdk ts1)
-              then parse_addition f0 (tl ts1)
+              then parse_addition_g lim f0 (tl ts1)
               else Ok ((EDeref (Ref (N0, n, []))), ts1)) (fun pat0 ->
              let (e, ts2) = pat0 in
              if isComma (hdk ts2)
-             then bind (members_loop f0 (tl ts2)) (fun pat1 ->
+             then bind (members_loop_g lim f0 (tl ts2)) (fun pat1 ->
                     let (ms, ts3) = pat1 in Ok (((n, e) :: ms), ts3))
              else bind (expect_r isBraceRight ts2) (fun ts3 -> Ok (((n,
                     e) :: []), ts3))))
 
-(** val parse_addressed : nat -> tok list -> (reference * tok list) res **)
+(** val parse_addressed_g :
+    nat -> nat -> tok list -> (reference * tok list) res **)
 
-and parse_addressed f ts =
+and parse_addressed_g lim f ts =
   match f with
   | O -> Fuel
   | S f0 ->
@@ -343,13 +349,14 @@ and parse_addressed f ts =
        let (d, ts1) = p in
        bind (expect_id_r ts1) (fun pat ->
          let (b, ts2) = pat in
-         bind (steps_loop f0 O ts2) (fun pat0 ->
+         bind (steps_loop_g lim f0 O ts2) (fun pat0 ->
            let (steps, ts3) = pat0 in Ok ((Ref (d, b, steps)), ts3)))
      | None -> Err DepthExceeded)
 
-(** val parse_reference : nat -> tok list -> (reference * tok list) res **)
+(** val parse_reference_g :
+    nat -> nat -> tok list -> (reference * tok list) res **)
 
-and parse_reference f ts =
+and parse_reference_g lim f ts =
   match f with
   | O -> Fuel
   | S f0 ->
@@ -358,30 +365,41 @@ and parse_reference f ts =
        let (d, ts1) = p in
        bind (expect_id_r ts1) (fun pat ->
          let (b, ts2) = pat in
-         bind (steps_loop f0 O ts2) (fun pat0 ->
+         bind (steps_loop_g lim f0 O ts2) (fun pat0 ->
            let (steps, ts3) = pat0 in Ok ((Ref (d, b, steps)), ts3)))
      | None -> Err DepthExceeded)
 
-(** val steps_loop : nat -> nat -> tok list -> (step list * tok list) res **)
+(** val steps_loop_g :
+    nat -> nat -> nat -> tok list -> (step list * tok list) res **)
 
-and steps_loop f k ts =
+and steps_loop_g lim f k ts =
   match f with
   | O -> Fuel
   | S f0 ->
-    if Nat.leb coq_MAX_REFERENCE_DEPTH k
+    if Nat.leb lim k
     then Err DepthExceeded
     else if isBracketLeft (hdk ts)
-         then bind (parse_addition f0 (tl ts)) (fun pat ->
+         then bind (parse_addition_g lim f0 (tl ts)) (fun pat ->
                 let (e, ts1) = pat in
                 bind (expect_r isBracketRight ts1) (fun ts2 ->
-                  bind (steps_loop f0 (S k) ts2) (fun pat0 ->
+                  bind (steps_loop_g lim f0 (S k) ts2) (fun pat0 ->
                     let (ss, ts3) = pat0 in Ok (((RsElement e) :: ss), ts3))))
          else if isDot (hdk ts)
               then bind (expect_id_r (tl ts)) (fun pat ->
                      let (m, ts1) = pat in
-                     bind (steps_loop f0 (S k) ts1) (fun pat0 ->
+                     bind (steps_loop_g lim f0 (S k) ts1) (fun pat0 ->
                        let (ss, ts2) = pat0 in Ok (((RsMember m) :: ss), ts2)))
               else Ok ([], ts)
+
+(** val coq_REPAIRED_ITERATIONS : nat **)
+
+let coq_REPAIRED_ITERATIONS =
+  S coq_MAX_REFERENCE_DEPTH
+
+(** val parse_addition : nat -> tok list -> (expr * tok list) res **)
+
+let parse_addition =
+  parse_addition_g coq_REPAIRED_ITERATIONS
 
 (** val parse_expression_res : nat -> tok list -> (expr * tok list) res **)
 
